@@ -209,10 +209,51 @@ def run(run, replay, cm):
             if key in seenmsg: continue
             seenmsg.add(key)
             run.violations.append((_save_replay(run, f), msg))
+    if run.violations and run.tier == 'quick':
+        run.notes.append('the replay / cross-check phases already found violations: enumeration and campaign skipped in the quick tier')
+        return run.verdict()
     # 3. campaign
     work = os.path.join(run.bdir, 'work'); os.makedirs(work)
     outcorp = os.path.join(work, 'corpus'); os.makedirs(outcorp)
     fragbase = os.path.join(work, 'frag')
+    # 3a. structured enumeration through the same binary (no fuzzer): function x register construction x near-miss mode x payloads
+    nenum = int(tcfg.get('enum_payloads', 0) * max(float(os.environ.get('VERIF_SCALE', '1')), 0.1))
+    enum_art = os.path.join(work, 'art-enum'); os.makedirs(enum_art)
+    eprocs = []
+    if nenum > 0:
+        for i in range(max(1, run.jobs)):
+            env = dict(run.env); env['VERIF_FRAG'] = fragbase; env['VERIF_KNOWN'] = kstr
+            env['VERIF_ENUM'] = f'{i}/{max(1, run.jobs)}'; env['VERIF_ENUM_ART'] = enum_art; env['VERIF_ENUM_PAYLOADS'] = str(nenum); env['VERIF_SEED'] = str(run.seed)
+            lg = open(os.path.join(work, f'elog{i}.txt'), 'w')
+            eprocs.append((i, subprocess.Popen([exe, '-runs=0'], stdout=lg, stderr=subprocess.STDOUT, env=env, cwd=work), lg))
+        # CPU-time budget per enumeration worker (normally a few seconds): a worker that exceeds it is executing a call that does not
+        # return; SIGTERM makes it save the program it is running, which is then judged like a libFuzzer timeout artifact
+        tick = os.sysconf('SC_CLK_TCK'); budget = tcfg.get('enum_cpu_s', 150); t0 = time.time()
+        live = {i: p for i, p, lg in eprocs}
+        while live:
+            time.sleep(0.5)
+            for i, p in list(live.items()):
+                if p.poll() is not None:
+                    del live[i]; continue
+                used = 0.0
+                try:
+                    f = open(f'/proc/{p.pid}/stat').read().rsplit(')', 1)[1].split()
+                    used = (int(f[11]) + int(f[12])) / tick
+                except Exception:
+                    pass
+                if used >= budget or time.time() - t0 > budget * 20:
+                    before = set(glob.glob(os.path.join(enum_art, '*')))
+                    p.terminate()
+                    try: p.wait(timeout=20)
+                    except subprocess.TimeoutExpired: p.kill(); p.wait()
+                    for fnew in set(glob.glob(os.path.join(enum_art, '*'))) - before:
+                        os.rename(fnew, os.path.join(enum_art, 'timeout-' + os.path.basename(fnew)))
+                    del live[i]
+        for i, p, lg in eprocs:
+            lg.close()
+            if p.returncode not in (0, -15) and not glob.glob(os.path.join(enum_art, '*')):
+                tail = open(os.path.join(work, f'elog{i}.txt'), errors='replace').read()[-400:]
+                run.notes.append(f"enumeration worker {i} exited {p.returncode} without a saved program: {tail.strip()[-200:]}"); run.infra_fail = True
     scale = float(os.environ.get('VERIF_SCALE', '1'))
     nw = max(1, run.jobs)
     runs = max(1000, int(tcfg['runs'] * scale / nw))
@@ -228,10 +269,13 @@ def run(run, replay, cm):
         procs.append((i, subprocess.Popen(cmd, stdout=lg, stderr=subprocess.STDOUT, env=env, cwd=work), lg, art))
     for i, p, lg, art in procs:
         p.wait(); lg.close()
-    # 4. triage artifacts
+    # 4. triage artifacts (campaign workers and the enumeration phase)
     noise = 0
     seen_reasons = {}
-    for i, p, lg, art in procs:
+
+    class _Done:
+        returncode = 0
+    for i, p, lg, art in procs + [('enum', _Done(), None, enum_art)]:
         for f in sorted(glob.glob(os.path.join(art, '*'))):
             b = os.path.basename(f)
             if b.startswith('timeout-'):
@@ -253,7 +297,7 @@ def run(run, replay, cm):
                 rc, out = _run_file(run, exe, f, known=kstr)
                 if rc: fails += 1; why = _reason(out)
             if fails == 0:
-                lg_txt = open(os.path.join(work, f'log{i}.txt'), errors='replace').read()
+                lg_txt = open(os.path.join(work, f'log{i}.txt'), errors='replace').read() if i != 'enum' else ''
                 why0 = _reason(lg_txt)
                 run.notes.append(f"artifact {b} of worker {i} did not reproduce on replay ({why0[:200]}); run marked inconclusive for it, not a violation")
                 if os.path.getsize(f) == 0:
@@ -276,7 +320,7 @@ def run(run, replay, cm):
             rp = _save_replay(run, use)
             seen_reasons[key] = rp
             run.violations.append((rp, why + (f" [{fails}/3 replays fail]" if fails < 3 else '')))
-        if p.returncode not in (0,) and not glob.glob(os.path.join(art, '*')):
+        if i != 'enum' and p.returncode not in (0,) and not glob.glob(os.path.join(art, '*')):
             tail = open(os.path.join(work, f'log{i}.txt'), errors='replace').read()[-600:]
             run.notes.append(f"fuzz worker {i} exited {p.returncode} without an artifact: {tail.strip().splitlines()[-1][:200] if tail.strip() else ''}")
             run.infra_fail = True
@@ -320,7 +364,7 @@ def run(run, replay, cm):
             'distinct_behaviours_fn_rc_argclass': len(beh), 'functions_reached': len(fnrc),
             'calls_with_out_of_domain_scalar_judged_by_table': tot['table_hits'], 'cells_checked_by_closure_clause': tot['closure_cells'],
             'function_x_return_code': table, 'libfuzzer_edge_coverage': cov, 'libfuzzer_features': ft,
-            'seed_corpus_files': len(glob.glob(os.path.join(seeds, '*'))), 'stored_programs_checked_under_valgrind_and_across_two_builds': ncross, 'regression_inputs_replayed': ncorp, 'workers': nw, 'runs_per_worker': runs,
+            'seed_corpus_files': len(glob.glob(os.path.join(seeds, '*'))), 'stored_programs_checked_under_valgrind_and_across_two_builds': ncross, 'regression_inputs_replayed': ncorp, 'enumerated_programs(function x register construction x near-miss mode x payloads)': 62 * 16 * 7 * nenum, 'workers': nw, 'runs_per_worker': runs,
             'excluded_known': excl, 'known_findings': run.known_lines, 'notes': run.notes, 'exhaustive': False,
         },
         'assumptions': spec.get('assumptions', []), 'wall_s': round(time.time() - run.t0, 2), 'violations': len(run.violations),
